@@ -25,6 +25,7 @@ import SqiProofs.FiatBytes3
 import SqiProofs.FiatBytes5
 import SqiProofs.FpRefGen
 import SqiProofs.Fp2RefGen
+import SqiProofs.Fp2LoopsGen
 
 namespace SqiProps.C07
 open SqiModel.Gf SqiProofs.GfRef SqiProofs.GfMont SqiProofs.GfFp2
@@ -624,7 +625,8 @@ theorem ref_backend_text_to_proof :
 /-- **src/gf/ref/gfx/fp2.c, straight-line functions, by translation**: `SqiGen.Fp2Ref` (tools/translate/fp2ref.py, re-extracted on every
     run) equals the models `fp2_*` of `SqiModel.Gf` that the generic GF(p²) theorems above are about, for EVERY operation record
     (definitional, plus one lemma on `-((uint32_t)buf[0] & 1)` for the sign normalisation of `fp2_sqrt`).  Not translated:
-    `fp2_batched_inv`, `fp2_pow_vartime` (loops over arrays), `fp2_encode`, `fp2_decode`: hand models tied by correspondence. -/
+    `fp2_batched_inv` (loops over arrays), `fp2_encode`, `fp2_decode`: hand models tied by correspondence; `fp2_pow_vartime` is translated
+    separately (`fp2_pow_vartime_generated_eq_model` below). -/
 theorem fp2_straightline_generated_eq_model {α : Type} (O : FpOps α) :
     (∀ x v, SqiGen.Fp2Ref.fp2_set_small O x v = fp2_set_small O v) ∧
     (∀ x, SqiGen.Fp2Ref.fp2_set_one O x = fp2_set_one O) ∧
@@ -650,6 +652,35 @@ theorem fp2_straightline_generated_eq_model {α : Type} (O : FpOps α) :
    SqiProofs.Fp2RefGen.fp2_half_eq O, SqiProofs.Fp2RefGen.fp2_add_eq O, SqiProofs.Fp2RefGen.fp2_sub_eq O,
    SqiProofs.Fp2RefGen.fp2_neg_eq O, SqiProofs.Fp2RefGen.fp2_mul_eq O, SqiProofs.Fp2RefGen.fp2_sqr_eq O,
    SqiProofs.Fp2RefGen.fp2_inv_eq O, SqiProofs.Fp2RefGen.fp2_is_square_eq O, SqiProofs.Fp2RefGen.fp2_sqrt_eq O⟩
+
+/-- **src/gf/ref/gfx/fp2.c, `fp2_pow_vartime`, by translation**: `SqiGen.Fp2Loops.fp2_pow_vartime` (tools/translate/fp2loops.py,
+    re-extracted from the C text on every run: the two nested `for` loops as `loopAcc`, `bit = (exp[j] >> i) & 1`, the conditional
+    `fp2_mul`, `fp2_sqr`, all calls going to the generated `SqiGen.Fp2Ref.*`; RADIX = 64) equals the model `fp2_pow_vartime` for EVERY
+    operation record, EVERY exponent array `exp` (any length, any word values) with `size = exp.length`, whatever the previous content of
+    `out` and of the uninitialised local `acc`. -/
+theorem fp2_pow_vartime_generated_eq_model {α : Type} (O : FpOps α) (out x acc0 : Fp2 α) (exp : List Nat) :
+    SqiGen.Fp2Loops.fp2_pow_vartime O out x exp exp.length acc0 = fp2_pow_vartime O x exp :=
+  SqiProofs.Fp2LoopsGen.fp2_pow_vartime_eq O out x acc0 exp
+
+/-- the generated inner-loop body is one square-and-multiply step on bit `i` of `exp[j]` (step-level statement of the same tie) -/
+theorem fp2_pow_vartime_generated_step {α : Type} (O : FpOps α) (x : Fp2 α) (exp : List Nat) (size j i : Nat) (s : Fp2 α × Fp2 α) :
+    SqiGen.Fp2Loops.fp2_pow_vartime_loop_2 O x exp size j s i =
+      (if exp.getD j 0 / 2 ^ i % 2 = 1 then fp2_mul O s.1 s.2 else s.1, fp2_sqr O s.2) :=
+  SqiProofs.Fp2LoopsGen.loop_2_eq O x exp size j s i
+
+/-- **generated `fp2_pow_vartime` computes `x ^ e` in `Fp[i]`**, `e = Σ exp[j]·2^(64 j)`, for any back-end record refining `ZMod p`
+    (`FpRefines`), any representable `x`, any array of 64-bit words: `fp2_pow_vartime_spec` stated on the definition extracted from the C text. -/
+theorem fp2_pow_vartime_generated_spec {p : Nat} [Fact p.Prime] {α : Type} {O : FpOps α} {dom : α → Prop} {val : α → ZMod p}
+    (h : FpRefines O p dom val) (out x acc0 : Fp2 α) (hx : dom2 dom x) (ws : List Nat) (hw : ∀ w ∈ ws, w < 2 ^ 64) :
+    dom2 dom (SqiGen.Fp2Loops.fp2_pow_vartime O out x ws ws.length acc0) ∧
+    val2 val (SqiGen.Fp2Loops.fp2_pow_vartime O out x ws ws.length acc0) = val2 val x ^ evalWords ws := by
+  rw [SqiProofs.Fp2LoopsGen.fp2_pow_vartime_eq]
+  exact SqiProofs.GfFp2.fp2_pow_vartime_spec h x hx ws hw
+
+/-- non-vacuity: the generated function on the lvl1 reference record, `x = 1`, a two-word exponent, garbage in `out`/`acc` -/
+example : SqiGen.Fp2Loops.fp2_pow_vartime (Ref.ops lvl1) ⟨7, 9⟩ ⟨Ref.fp_set_one lvl1, 0⟩ [5, 3] 2 ⟨11, 13⟩ =
+    fp2_pow_vartime (Ref.ops lvl1) ⟨Ref.fp_set_one lvl1, 0⟩ [5, 3] :=
+  fp2_pow_vartime_generated_eq_model (Ref.ops lvl1) _ _ _ [5, 3]
 
 /-! ## x86 ("broadwell") back-end, value-level model `SqiModel.GfX86`
 
